@@ -9,7 +9,7 @@
 #include "unitmc.h"
 
 #define STK        32768
-#define REGION_MAX 24576
+#define REGION_MAX 32768
 #define SB_MAX     48
 #define NOTES_MAX  24
 
